@@ -35,7 +35,7 @@ Definition slot_ok (wf : tree -> bool) (b : bool) (ck : kind) (o : option (list 
 Fixpoint tree_wf (t : tree) : bool :=
   match t with
   | T k nid a c n i =>
-      attrs_wf k a && is_normal k a
+      attrs_wf k a
       && slot_ok tree_wf (has_comps k) KComponent c
       && slot_ok tree_wf (has_nss k) KService n
       && slot_ok tree_wf (has_ifs k) KInterface i
@@ -51,7 +51,7 @@ Definition dict_tables_ok (k : kind) : bool :=
   && list_eqb String.eqb child_keys [k_components; k_services; k_interfaces].
 
 Definition all_tables_ok : bool :=
-  forallb (fun k => tables_symmetric k && dict_tables_ok k && absent_ok k) all_kinds.
+  forallb (fun k => tables_symmetric k && dict_tables_ok k && absent_ok k && absent_none k) all_kinds.
 
 (* diagnosis: the attributes / keywords / graph properties whose table entries are not inverse (empty
    exactly when the entry-wise part of tables_symmetric holds) *)
